@@ -74,6 +74,8 @@ def run_cfg(ctx, p, cfg):
         # name a logger still refers to, so no dangling reference may survive the build (C13.V2 re-evaluated)
         from rules import c13
         c13.rule_retention(ctx, p, cfg, "A10")
+    from rules import c02
+    c02.rule_install_publishes(ctx, p, cfg, "A11")   # "records logged after the swap use the new configuration": the facade's global maximum published with a swap is the new logger's
     with ctx.rule("A1", "one snapshot per call", cfg) as r:
         snap, lf = snapshot_adt(p)
         for path in (anchors.LOG_LOG, anchors.LOG_ENABLED, anchors.LOG_FLUSH):
